@@ -1,3 +1,4 @@
+\* crash part as coded, two crashes: TLC is EXPECTED to violate ConsistentAfterRecovery (no start-up reconciliation of the UTXO store) - a lead the harness reproduces on the real node
 SPECIFICATION Spec
 CONSTANTS
   MaxH = 2
